@@ -188,7 +188,8 @@ func Exec(line string) string {
 				if v == "E" {
 					v = ""
 				}
-				p.CriticalOptions = map[string]string{"source-address": strings.ReplaceAll(v, "+", ",")}
+				v = strings.ReplaceAll(strings.ReplaceAll(v, "+", ","), "_", " ")
+				p.CriticalOptions = map[string]string{"source-address": v}
 			}
 			if f[2] == "1" {
 				p.Extensions = map[string]string{"no-touch-required": ""}
